@@ -8,6 +8,7 @@ import (
 	"bufio"
 	"fmt"
 	"io"
+	"os"
 	"os/exec"
 	"strconv"
 	"strings"
@@ -31,8 +32,11 @@ type SolverStats struct {
 	Unsat     int64
 	Unknown   int64
 	Errors    int64
+	Fallback  int64
 	NanosBusy int64
 }
+
+var solverSeq int64
 
 type Solver struct {
 	kind      string // "z3", "z3-new", "cvc5"
@@ -47,10 +51,22 @@ type Solver struct {
 	lastErr   string
 	gen       int
 	log       io.Writer
+	decls     []string   // declarations/definitions since the last reset
+	frames    [][]string // assertion stack (frame 0 = base level)
+	wantRefs  []string   // extra term refs whose values a fallback should report
+	fbActive  bool       // last Sat answer came from a fallback solver
+	fbValues  map[string]uint64
+	Fallbacks []string
 }
 
 func NewSolver(kind string, timeoutMs int, stats *SolverStats) *Solver {
 	s := &Solver{kind: kind, timeoutMs: timeoutMs, stats: stats}
+	if d := os.Getenv("VERIF_SMTLOG"); d != "" {
+		n := atomic.AddInt64(&solverSeq, 1)
+		if f, err := os.Create(fmt.Sprintf("%s/solver-%d.smt2", d, n)); err == nil {
+			s.log = f
+		}
+	}
 	s.start()
 	return s
 }
@@ -85,6 +101,9 @@ func (s *Solver) start() {
 }
 
 func (s *Solver) resetState() {
+	s.decls = nil
+	s.frames = [][]string{nil}
+	s.fbActive = false
 	s.defined = map[int]bool{}
 	s.declVars = map[string]bool{}
 	s.declUFs = map[string]bool{}
@@ -140,6 +159,7 @@ func (s *Solver) define(st *TermStore, t *Term) {
 		if !s.declUFs[n] {
 			s.declUFs[n] = true
 			s.send(st.UFs[n])
+			s.decls = append(s.decls, st.UFs[n])
 		}
 	}
 	var rec func(t *Term)
@@ -150,7 +170,9 @@ func (s *Solver) define(st *TermStore, t *Term) {
 		case OpVar:
 			if !s.declVars[t.Name] {
 				s.declVars[t.Name] = true
-				s.send(fmt.Sprintf("(declare-const |%s| %s)", t.Name, t.Sort))
+				l := fmt.Sprintf("(declare-const |%s| %s)", t.Name, t.Sort)
+				s.send(l)
+				s.decls = append(s.decls, l)
 			}
 			return
 		}
@@ -161,18 +183,42 @@ func (s *Solver) define(st *TermStore, t *Term) {
 			rec(a)
 		}
 		s.defined[t.ID] = true
-		s.send(fmt.Sprintf("(define-fun t%d () %s %s)", t.ID, t.Sort, t.body()))
+		l := fmt.Sprintf("(define-fun t%d () %s %s)", t.ID, t.Sort, t.body())
+		s.send(l)
+		s.decls = append(s.decls, l)
 	}
 	rec(t)
 }
 
 func (s *Solver) Assert(st *TermStore, t *Term) {
 	s.define(st, t)
-	s.send("(assert " + t.ref() + ")")
+	s.AssertRef(t.ref())
 }
 
-func (s *Solver) Push() { s.send("(push 1)") }
-func (s *Solver) Pop()  { s.send("(pop 1)") }
+// AssertRef asserts an already defined term by reference.
+func (s *Solver) AssertRef(ref string) {
+	l := "(assert " + ref + ")"
+	s.send(l)
+	s.frames[len(s.frames)-1] = append(s.frames[len(s.frames)-1], l)
+}
+
+// DeclareVar declares a variable at the base level (before any push).
+func (s *Solver) DeclareVar(t *Term) {
+	if !s.declVars[t.Name] {
+		s.declVars[t.Name] = true
+		l := fmt.Sprintf("(declare-const |%s| %s)", t.Name, t.Sort)
+		s.send(l)
+		s.decls = append(s.decls, l)
+	}
+}
+
+func (s *Solver) Push() { s.send("(push 1)"); s.frames = append(s.frames, nil) }
+func (s *Solver) Pop() {
+	s.send("(pop 1)")
+	if len(s.frames) > 1 {
+		s.frames = s.frames[:len(s.frames)-1]
+	}
+}
 
 func (s *Solver) readLine() (string, error) {
 	type res struct {
@@ -192,8 +238,106 @@ func (s *Solver) readLine() (string, error) {
 	}
 }
 
-// Check runs (check-sat) on the current assertion stack.
+// Check runs (check-sat); an "unknown" of the primary solver is retried on the
+// fallback solvers (one-shot processes fed the current assertion stack).
 func (s *Solver) Check() SatResult {
+	s.fbActive = false
+	g := s.gen
+	r := s.checkPrimary()
+	if r == Unknown && s.gen == g {
+		for _, fb := range s.Fallbacks {
+			if fb == s.kind {
+				continue
+			}
+			if r2 := s.fallback(fb); r2 != Unknown {
+				atomic.AddInt64(&s.stats.Unknown, -1)
+				atomic.AddInt64(&s.stats.Fallback, 1)
+				if r2 == Sat {
+					atomic.AddInt64(&s.stats.Sat, 1)
+				} else {
+					atomic.AddInt64(&s.stats.Unsat, 1)
+				}
+				return r2
+			}
+		}
+	}
+	return r
+}
+
+func (s *Solver) fallback(kind string) SatResult {
+	var sb strings.Builder
+	var cmd *exec.Cmd
+	tl := s.timeoutMs * 3
+	switch kind {
+	case "z3":
+		cmd = exec.Command("/usr/bin/z3", "-in", "-smt2")
+		fmt.Fprintf(&sb, "(set-option :timeout %d)\n", tl)
+	case "z3-new":
+		cmd = exec.Command("z3-new", "-in", "-smt2")
+		fmt.Fprintf(&sb, "(set-option :timeout %d)\n", tl)
+	case "cvc5":
+		cmd = exec.Command("cvc5", "--lang=smt2", "--produce-models", fmt.Sprintf("--tlimit=%d", tl))
+		sb.WriteString("(set-logic ALL)\n")
+	default:
+		return Unknown
+	}
+	sb.WriteString("(set-option :produce-models true)\n")
+	for _, l := range s.decls {
+		sb.WriteString(l)
+		sb.WriteByte('\n')
+	}
+	for _, f := range s.frames {
+		for _, l := range f {
+			sb.WriteString(l)
+			sb.WriteByte('\n')
+		}
+	}
+	sb.WriteString("(check-sat)\n")
+	var refs []string
+	for n := range s.declVars {
+		refs = append(refs, "|"+n+"|")
+	}
+	refs = append(refs, s.wantRefs...)
+	cmd.Stdin = strings.NewReader(sb.String())
+	t0 := time.Now()
+	out, _ := cmd.Output()
+	atomic.AddInt64(&s.stats.NanosBusy, int64(time.Since(t0)))
+	first := strings.TrimSpace(strings.SplitN(string(out), "\n", 2)[0])
+	switch first {
+	case "unsat":
+		return Unsat
+	case "sat":
+		// second run with get-value (kept separate so that an unsat answer is not polluted by errors)
+		if len(refs) > 0 {
+			sb.WriteString("(get-value (" + strings.Join(refs, " ") + "))\n")
+			var cmd2 *exec.Cmd
+			switch kind {
+			case "z3":
+				cmd2 = exec.Command("/usr/bin/z3", "-in", "-smt2")
+			case "z3-new":
+				cmd2 = exec.Command("z3-new", "-in", "-smt2")
+			default:
+				cmd2 = exec.Command("cvc5", "--lang=smt2", "--produce-models", fmt.Sprintf("--tlimit=%d", tl))
+			}
+			cmd2.Stdin = strings.NewReader(sb.String())
+			out2, _ := cmd2.Output()
+			txt := string(out2)
+			k := strings.Index(txt, "(")
+			vals := map[string]uint64{}
+			if k < 0 || parseValues(txt[k:], vals) != nil {
+				return Unknown
+			}
+			s.fbValues = vals
+		} else {
+			s.fbValues = map[string]uint64{}
+		}
+		s.fbActive = true
+		return Sat
+	}
+	return Unknown
+}
+
+func (s *Solver) checkPrimary() SatResult {
 	t0 := time.Now()
 	s.send("(check-sat)")
 	atomic.AddInt64(&s.stats.Queries, 1)
@@ -247,7 +391,7 @@ func (s *Solver) CheckWith(st *TermStore, t *Term) SatResult {
 	s.define(st, t)
 	g := s.gen
 	s.Push()
-	s.send("(assert " + t.ref() + ")")
+	s.AssertRef(t.ref())
 	r := s.Check()
 	if s.gen == g {
 		s.Pop()
@@ -261,6 +405,14 @@ func (s *Solver) GetValues(vars []*Term) (map[string]uint64, error) {
 	if len(vars) == 0 {
 		return res, nil
 	}
+	if s.fbActive {
+		for _, v := range vars {
+			if x, ok := s.fbValues[v.Name]; ok {
+				res[v.Name] = x
+			}
+		}
+		return res, nil
+	}
 	// ask in chunks to keep lines short
 	for i := 0; i < len(vars); i += 50 {
 		j := i + 50
@@ -271,8 +423,7 @@ func (s *Solver) GetValues(vars []*Term) (map[string]uint64, error) {
 		sb.WriteString("(get-value (")
 		for _, v := range vars[i:j] {
 			if !s.declVars[v.Name] {
-				s.declVars[v.Name] = true
-				s.send(fmt.Sprintf("(declare-const |%s| %s)", v.Name, v.Sort))
+				continue // never constrained: any value will do
 			}
 			sb.WriteString(v.ref())
 			sb.WriteByte(' ')
